@@ -110,7 +110,18 @@ def _run_rot(case):
     F2 = _field(det2, s2, rc["optics"], _ms(case)).values
     c, s_ = math.cos(case["alpha"]), math.sin(case["alpha"])
     exp = np.stack([c * F[:, 0] - s_ * F[:, 1], s_ * F[:, 0] + c * F[:, 1], F[:, 2]], axis=1)
-    return {"resid": {"rot_tight": relmax(F2, exp)}, "flags": {}, "fmax": fnum(float(np.abs(F).max()))}
+    resid = {"rot_tight": relmax(F2, exp)}
+    # the cross sections of the solution are invariant under the joint rotation (cluster and polarization together),
+    # and a cluster of non-absorbing spheres absorbs nothing
+    from holopy.scattering import calc_cross_sections
+    a = dict(medium_index=o["medium_index"], illum_wavelen=o["illum_wavelen"])
+    x0 = calc_cross_sections(s, illum_polarization=o["illum_polarization"], theory=_ms(case), **a).values
+    x1 = calc_cross_sections(s2, illum_polarization=rc["optics"]["illum_polarization"], theory=_ms(case), **a).values
+    resid["rot_xsec"] = fnum(float(max(abs(x1[0] - x0[0]), abs(x1[1] - x0[1]), abs(x1[2] - x0[2])) / x0[2]))
+    resid["rot_g"] = fnum(float(abs(x1[3] - x0[3])))
+    if all(not isinstance(m["n"], list) for m in case["cluster"]["members"]):
+        resid["real_index_cluster_absorbs"] = fnum(float(abs(x0[1]) / x0[2]))
+    return {"resid": resid, "flags": {}, "fmax": fnum(float(np.abs(F).max()))}
 
 
 def _run_one(case):
@@ -268,6 +279,8 @@ def _tol(k):
         return 1e-4
     if k == "rot_tight":
         return 3e-6
+    if k in ("rot_xsec", "rot_g", "real_index_cluster_absorbs"):
+        return 3e-5         # tight solver settings; extinction (optical theorem) and scattering (coefficient sum) are computed separately
     return 1e-5   # one_vs_mie, see C02
 
 
